@@ -20,6 +20,7 @@ RULE = ("calibrate_solar for all 17 spacecraft x channels 1/2/3a x a date grid (
         "files: channels 1, 2, 3a vs the formula with the first line's year / day and that day's distance factor; the "
         "distance factor for all 366 days. A case = (spacecraft, channel, date) with 1024 counts, or one pipeline pass, "
         "or one day; distinct by those keys")
+RULE += (" In the thorough tier, and in the quick tier whenever the source differs from the validated baseline, a LONG-PASS stream is added (passes of 1300 .. 12000 lines, just beyond multiples of 256 .. 8192, with the property-relevant event placed at and after such multiples; DESIGN 10.4 round 13).")
 TRUSTED_EXTRA = ["the cosine of the distance factor is not evaluated in the kernel: its numeric value is an exhaustive "
                  "366-point comparison against libm (1e-12), not a theorem",
                  "float64 evaluation of the slope formula is compared with exact rational arithmetic at rel 1e-9"]
